@@ -13,6 +13,8 @@ os.dup2(devnull.fileno(), 2)
 
 import asynq
 from asynq import asynq as asynq_deco
+from asynq import async_proxy
+from asynq.decorators import make_async_decorator
 from asynq.batching import DebugBatchItem
 from asynq import tools
 
@@ -89,11 +91,21 @@ def elements(cell):
 
 
 def iterable(elems, kind):
+    """list / tuple are re-iterable; every other kind is a ONE-SHOT iterator of a different type"""
+    if kind == "list":
+        return list(elems)
     if kind == "tuple":
         return tuple(elems)
-    if kind == "iter":
-        return (e for e in elems)        # one-shot
-    return list(elems)
+    if kind in ("gen", "iter"):          # "iter": old name of the generator kind in stored replay files
+        return (e for e in elems) if kind == "gen" else iter(list(elems))
+    if kind == "map":
+        return map(lambda e: e, list(elems))
+    if kind == "reversed":
+        return reversed(list(elems)[::-1])
+    if kind == "chain":
+        h = len(elems) // 2
+        return itertools.chain(list(elems[:h]), tuple(elems[h:]))
+    raise ValueError(kind)
 
 
 def enc(e):
@@ -130,7 +142,7 @@ def run_cell(cell):
     """returns (got by the helper, got by the built-in or None)"""
     h, fk = cell["h"], cell["fk"]
     elems = elements(cell)
-    afn = {"none": None, "plain": kplain, "block": kblock}[fk]
+    afn = {"none": None, "plain": kplain, "block": kblock}.get(fk)
     sfn = None if fk == "none" else ksync
     flushes = [0]
     execs = [0]
@@ -154,16 +166,42 @@ def run_cell(cell):
                     raise Unlisted()
                 return ("ok", arg)
 
-            if fk == "block":
-                def body(arg):
+            @asynq_deco()
+            def passthrough(v):
+                return v
+
+            @asynq_deco()
+            def plain_body(arg):
+                return fail_or_answer(arg)
+
+            at_call = cell["form"] == "call"
+            if fk == "block":                       # @asynq generator body
+                @asynq_deco()
+                def target(arg):
                     yield DebugBatchItem()
                     return fail_or_answer(arg)
-            else:
-                def body(arg):
-                    return fail_or_answer(arg)
+            elif fk == "plain":                     # @asynq plain body
+                target = plain_body
+            elif fk == "proxy":                     # @async_proxy(): runs at call time and returns a future
+                if at_call:
+                    @async_proxy()
+                    def target(arg):
+                        return passthrough.asynq(fail_or_answer(arg))
+                else:
+                    @async_proxy()
+                    def target(arg):
+                        return plain_body.asynq(arg)
+            else:                                   # a make_async_decorator wrapper around an @asynq function
+                if at_call:
+                    def wrapper_fn(arg):
+                        return passthrough.asynq(fail_or_answer(arg))
+                else:
+                    def wrapper_fn(arg):
+                        return plain_body.asynq(arg)
+                target = make_async_decorator(plain_body, wrapper_fn, "verif_wrapper")
 
             def thunk():
-                fn = tools.aretry(listed, max_tries=mt, sleep=0)(asynq_deco()(body))
+                fn = tools.aretry(listed, max_tries=mt, sleep=0)(target)
                 return fn(3)
             return {"res": outcome(thunk, "const"), "flushes": flushes[0], "execs": execs[0]}, None
 
